@@ -132,7 +132,13 @@ func (m *C12) Block(w *world.World, e *world.BlockEvent) {
 				w.Violate("C12", "unfinished-order-without-scheduled-examination", fmt.Sprintf("height %d: order %d (created %d, timeout %d, duration %d, %d/%d stored, %d waiting) is unresolved but no future timeout examination lists it", h, id, t.created, t.timeout, t.duration, done, post.Replica, waiting), nil)
 			}
 			// P2
-			if h > t.created+t.duration {
+			// the first examination comes one interval after the hand-over (a gateway may call Ready late),
+			// later ones every interval until the last one before created+duration
+			bound := t.created + t.duration
+			if hb := uint64(t.handed) + t.timeout; hb > bound {
+				bound = hb
+			}
+			if h > bound {
 				w.Violate("C12", "order-unresolved-beyond-its-lifetime", fmt.Sprintf("height %d: order %d (created %d, duration %d, timeout %d) is still unresolved: %d/%d stored, %d waiting, status %d", h, id, t.created, t.duration, t.timeout, done, post.Replica, waiting, post.Status), nil)
 				delete(m.track, id)
 				continue
@@ -310,6 +316,17 @@ func scnTimeouts(ctx *check.JobCtx) {
 			_, oid = w.Store(req)
 			if oid != 0 {
 				w.EndBlock()
+				// the gateway may pick the order up late, even later than one timeout interval after its creation
+				switch ctx.Arg("readydelay", "alternate") {
+				case "late":
+					w.Advance(int64(timeout) + int64(1+w.Rng.Intn(20)))
+				case "alternate":
+					if pat%2 == 1 {
+						w.Advance(int64(timeout) + int64(1+w.Rng.Intn(20)))
+					} else if pat%4 == 2 {
+						w.Advance(int64(timeout) - 1)
+					}
+				}
 				w.Ready(gw.Acct, oid, gw.Acct.Addr.String())
 			}
 		} else {
@@ -323,7 +340,7 @@ func scnTimeouts(ctx *check.JobCtx) {
 		if t, ok := c12.track[oid]; ok {
 			t.noRepl = extra == 0
 		}
-		w.Case("c12:pattern:replica=%d,extra=%d,td=%s,ready=%v,bits=%0*b", replica, extra, tdClass, viaReady, nbits, pat)
+		w.Case("c12:pattern:replica=%d,extra=%d,td=%s,ready=%v,late=%v,bits=%0*b", replica, extra, tdClass, viaReady, viaReady && pat%2 == 1, nbits, pat)
 		decide(w)
 		w.EndBlock()
 		for k := int64(0); k < step; k++ {
